@@ -36,8 +36,8 @@ func (h *NFSProcedureHandler) handleReaddir(body io.Reader, reply *RPCReply, aut
 	}
 
 	// Rate limiting (after body consumption to prevent stream desync)
-	if h.server.handler.rateLimiter != nil && h.server.handler.policy.Load().EnableRateLimiting {
-		if !h.server.handler.rateLimiter.AllowOperation(authCtx.ClientIP, OpTypeReaddir) {
+	if h.server.handler.rateLimiter.Load() != nil && h.server.handler.policy.Load().EnableRateLimiting {
+		if !h.server.handler.rateLimiter.Load().AllowOperation(authCtx.ClientIP, OpTypeReaddir) {
 			if h.server.handler.metrics != nil {
 				h.server.handler.metrics.RecordRateLimitExceeded()
 			}
@@ -166,8 +166,8 @@ func (h *NFSProcedureHandler) handleReaddirplus(body io.Reader, reply *RPCReply,
 	}
 
 	// Rate limiting (after body consumption to prevent stream desync)
-	if h.server.handler.rateLimiter != nil && h.server.handler.policy.Load().EnableRateLimiting {
-		if !h.server.handler.rateLimiter.AllowOperation(authCtx.ClientIP, OpTypeReaddir) {
+	if h.server.handler.rateLimiter.Load() != nil && h.server.handler.policy.Load().EnableRateLimiting {
+		if !h.server.handler.rateLimiter.Load().AllowOperation(authCtx.ClientIP, OpTypeReaddir) {
 			if h.server.handler.metrics != nil {
 				h.server.handler.metrics.RecordRateLimitExceeded()
 			}
